@@ -416,6 +416,36 @@ func (o *Oracle) report(idx int, op Op, res string, pre, post *Dump) {
 			o.Run.Count("c04:same_version_entry")
 		}
 	}
+	// C04 "an older report never alters the view": when every entry of this report about shard s carries a version below
+	// the view's, the membership, the version and the leader flags of the view of s are as before (only report times move)
+	{
+		maxCci := map[uint64]uint64{}
+		anyInfo := map[uint64]bool{}
+		for i := range op.Infos {
+			in := &op.Infos[i]
+			anyInfo[in.S] = true
+			if in.Cci > maxCci[in.S] {
+				maxCci[in.S] = in.Cci
+			}
+		}
+		for sid := range anyInfo {
+			pv, qv := pre.ShardImage.Shards[sid], post.ShardImage.Shards[sid]
+			if pv == nil || qv == nil || maxCci[sid] >= pv.ConfigChangeIndex {
+				continue
+			}
+			o.Run.Count("c04:older_report_checked")
+			same := qv.ConfigChangeIndex == pv.ConfigChangeIndex && len(qv.Replicas) == len(pv.Replicas)
+			for rid, pr := range pv.Replicas {
+				qr := qv.Replicas[rid]
+				if qr == nil || qr.Address != pr.Address || qr.IsLeader != pr.IsLeader || qr.FirstObserved != pr.FirstObserved {
+					same = false
+				}
+			}
+			if !same {
+				o.fail("C04", "older_report_ignored", "older-report-altered-view", fmt.Sprintf("shard %d: a report whose entries carry versions <= %d changed the view at version %d (members, version, leader flags or first-seen times)", sid, maxCci[sid], pv.ConfigChangeIndex), idx)
+			}
+		}
+	}
 	// C05: a listed replica that is in the view has now been reported at time T
 	for i := range op.Infos {
 		in := &op.Infos[i]
